@@ -9,10 +9,10 @@ RW=net/queue/queue.go,net/packet/packet.go,nbt/typeinfo.go,server/playerlist.go
 mkdir -p "$work/ctl" "$work/free"
 go run ./tools/overlaygen -work "$work/ctl" -mode controlled -rewrite "$RW" || { echo "HARNESS-ERROR: overlay generation failed" >&2; exit 2; }
 go run ./tools/overlaygen -work "$work/free" -mode free || { echo "HARNESS-ERROR: overlay generation failed" >&2; exit 2; }
-go build -tags verif,verifctl -overlay "$work/ctl/overlay.json" -o "$work/h_ctl" ./checks/c20 2> "$work/build.log" || { cat "$work/build.log" >&2; echo "HARNESS-ERROR: build failed" >&2; exit 2; }
+go build $VERIF_MODFLAG -tags verif,verifctl -overlay "$work/ctl/overlay.json" -o "$work/h_ctl" ./checks/c20 2> "$work/build.log" || { cat "$work/build.log" >&2; echo "HARNESS-ERROR: build failed" >&2; exit 2; }
 racefile="$work/race.json"
 if [[ " $* " != *" -replay "* ]]; then
-  if go build -race -tags verif -overlay "$work/free/overlay.json" -o "$work/h_free" ./checks/c20 2> "$work/build_free.log"; then
+  if go build $VERIF_MODFLAG -race -tags verif -overlay "$work/free/overlay.json" -o "$work/h_free" ./checks/c20 2> "$work/build_free.log"; then
     iters=150; [ "$tier" = thorough ] && iters=1500
     GORACE="halt_on_error=1 exitcode=66" VERIF_FREE_ITERS=$iters timeout 600 "$work/h_free" -mode free > "$work/free.out" 2> "$work/free.err"
     frc=$?
